@@ -1,6 +1,7 @@
 CONSTANTS
   N = 3
   MaxTasks = 4
+  G = 1
   Dev = {}
   KeepHist = TRUE
 INIT GInit
